@@ -2767,6 +2767,19 @@ let handle_packet s = function
 | RPingResp ->
   ((set_rt s (rt_with_timers s.s_rt s.s_rt.rt_next_ping None)), (HOk false))
 
+(** val ack_type_ok : session -> rpacket -> bool **)
+
+let ack_type_ok s = function
+| RPubAck (pid, _) ->
+  (match find (fun e -> N.eqb e.re_pid pid) s.s_ob.ob_ret with
+   | Some e -> is_publish_entry s.s_ob.ob_buf e
+   | None -> true)
+| RPubRec (pid, _) ->
+  (match find (fun e -> N.eqb e.re_pid pid) s.s_ob.ob_ret with
+   | Some e -> is_publish_entry s.s_ob.ob_buf e
+   | None -> true)
+| _ -> true
+
 (** val connect_request : session -> connect_req **)
 
 let connect_request s =
@@ -3949,7 +3962,8 @@ let p_disconnect_req =
 type world = { w_sess : session; w_conn : bool; w_live : bool; w_event : 
                n; w_now : n; w_inq : (n * bytes) list; w_last_arrival : 
                n; w_txbuf : bytes; w_script : (n * n) list; w_broker : 
-               n; w_log : text list; w_handles : op list; w_waits : n }
+               n; w_log : text list; w_handles : op list; w_waits : n;
+               w_envok : bool }
 
 (** val upd_sess : world -> session -> world **)
 
@@ -3957,7 +3971,8 @@ let upd_sess w s =
   { w_sess = s; w_conn = w.w_conn; w_live = w.w_live; w_event = w.w_event;
     w_now = w.w_now; w_inq = w.w_inq; w_last_arrival = w.w_last_arrival;
     w_txbuf = w.w_txbuf; w_script = w.w_script; w_broker = w.w_broker;
-    w_log = w.w_log; w_handles = w.w_handles; w_waits = w.w_waits }
+    w_log = w.w_log; w_handles = w.w_handles; w_waits = w.w_waits; w_envok =
+    w.w_envok }
 
 (** val upd_live : world -> bool -> bool -> n -> world **)
 
@@ -3965,7 +3980,7 @@ let upd_live w conn live ev =
   { w_sess = w.w_sess; w_conn = conn; w_live = live; w_event = ev; w_now =
     w.w_now; w_inq = w.w_inq; w_last_arrival = w.w_last_arrival; w_txbuf =
     w.w_txbuf; w_script = w.w_script; w_broker = w.w_broker; w_log = w.w_log;
-    w_handles = w.w_handles; w_waits = w.w_waits }
+    w_handles = w.w_handles; w_waits = w.w_waits; w_envok = w.w_envok }
 
 (** val upd_log : world -> text -> world **)
 
@@ -3974,7 +3989,7 @@ let upd_log w l =
     w.w_event; w_now = w.w_now; w_inq = w.w_inq; w_last_arrival =
     w.w_last_arrival; w_txbuf = w.w_txbuf; w_script = w.w_script; w_broker =
     w.w_broker; w_log = (l :: w.w_log); w_handles = w.w_handles; w_waits =
-    w.w_waits }
+    w.w_waits; w_envok = w.w_envok }
 
 (** val upd_script : world -> (n * n) list -> world **)
 
@@ -3983,7 +3998,7 @@ let upd_script w sc =
     w.w_event; w_now = w.w_now; w_inq = w.w_inq; w_last_arrival =
     w.w_last_arrival; w_txbuf = w.w_txbuf; w_script = sc; w_broker =
     w.w_broker; w_log = w.w_log; w_handles = w.w_handles; w_waits =
-    w.w_waits }
+    w.w_waits; w_envok = w.w_envok }
 
 (** val upd_now : world -> n -> world **)
 
@@ -3991,7 +4006,8 @@ let upd_now w t =
   { w_sess = w.w_sess; w_conn = w.w_conn; w_live = w.w_live; w_event =
     w.w_event; w_now = t; w_inq = w.w_inq; w_last_arrival = w.w_last_arrival;
     w_txbuf = w.w_txbuf; w_script = w.w_script; w_broker = w.w_broker;
-    w_log = w.w_log; w_handles = w.w_handles; w_waits = w.w_waits }
+    w_log = w.w_log; w_handles = w.w_handles; w_waits = w.w_waits; w_envok =
+    w.w_envok }
 
 (** val upd_inq : world -> (n * bytes) list -> n -> world **)
 
@@ -3999,7 +4015,7 @@ let upd_inq w q last =
   { w_sess = w.w_sess; w_conn = w.w_conn; w_live = w.w_live; w_event =
     w.w_event; w_now = w.w_now; w_inq = q; w_last_arrival = last; w_txbuf =
     w.w_txbuf; w_script = w.w_script; w_broker = w.w_broker; w_log = w.w_log;
-    w_handles = w.w_handles; w_waits = w.w_waits }
+    w_handles = w.w_handles; w_waits = w.w_waits; w_envok = w.w_envok }
 
 (** val upd_txbuf : world -> bytes -> world **)
 
@@ -4008,7 +4024,7 @@ let upd_txbuf w b =
     w.w_event; w_now = w.w_now; w_inq = w.w_inq; w_last_arrival =
     w.w_last_arrival; w_txbuf = b; w_script = w.w_script; w_broker =
     w.w_broker; w_log = w.w_log; w_handles = w.w_handles; w_waits =
-    w.w_waits }
+    w.w_waits; w_envok = w.w_envok }
 
 (** val upd_broker : world -> n -> world **)
 
@@ -4016,7 +4032,8 @@ let upd_broker w m =
   { w_sess = w.w_sess; w_conn = w.w_conn; w_live = w.w_live; w_event =
     w.w_event; w_now = w.w_now; w_inq = w.w_inq; w_last_arrival =
     w.w_last_arrival; w_txbuf = w.w_txbuf; w_script = w.w_script; w_broker =
-    m; w_log = w.w_log; w_handles = w.w_handles; w_waits = w.w_waits }
+    m; w_log = w.w_log; w_handles = w.w_handles; w_waits = w.w_waits;
+    w_envok = w.w_envok }
 
 (** val upd_handles : world -> op list -> world **)
 
@@ -4024,7 +4041,8 @@ let upd_handles w h =
   { w_sess = w.w_sess; w_conn = w.w_conn; w_live = w.w_live; w_event =
     w.w_event; w_now = w.w_now; w_inq = w.w_inq; w_last_arrival =
     w.w_last_arrival; w_txbuf = w.w_txbuf; w_script = w.w_script; w_broker =
-    w.w_broker; w_log = w.w_log; w_handles = h; w_waits = w.w_waits }
+    w.w_broker; w_log = w.w_log; w_handles = h; w_waits = w.w_waits;
+    w_envok = w.w_envok }
 
 (** val upd_waits : world -> n -> world **)
 
@@ -4032,7 +4050,17 @@ let upd_waits w n0 =
   { w_sess = w.w_sess; w_conn = w.w_conn; w_live = w.w_live; w_event =
     w.w_event; w_now = w.w_now; w_inq = w.w_inq; w_last_arrival =
     w.w_last_arrival; w_txbuf = w.w_txbuf; w_script = w.w_script; w_broker =
-    w.w_broker; w_log = w.w_log; w_handles = w.w_handles; w_waits = n0 }
+    w.w_broker; w_log = w.w_log; w_handles = w.w_handles; w_waits = n0;
+    w_envok = w.w_envok }
+
+(** val upd_envok : world -> bool -> world **)
+
+let upd_envok w b =
+  { w_sess = w.w_sess; w_conn = w.w_conn; w_live = w.w_live; w_event =
+    w.w_event; w_now = w.w_now; w_inq = w.w_inq; w_last_arrival =
+    w.w_last_arrival; w_txbuf = w.w_txbuf; w_script = w.w_script; w_broker =
+    w.w_broker; w_log = w.w_log; w_handles = w.w_handles; w_waits =
+    w.w_waits; w_envok = b }
 
 (** val mAX_WAITS : n **)
 
@@ -4524,7 +4552,10 @@ let process_received w =
           (match o with
            | Some p ->
              let (s2, hr) = handle_packet (set_reader s r') p in
-             let w2 = upd_sess w s2 in
+             let w2 =
+               upd_envok (upd_sess w s2)
+                 ((&&) w.w_envok (ack_type_ok (set_reader s r') p))
+             in
              (match hr with
               | HOk deliver0 ->
                 if deliver0
@@ -4848,7 +4879,14 @@ let op_connect fuel w =
              let (s6, cr) = connack_process (set_reader s5 r') p w5.w_now in
              (match cr with
               | CAOk resumed ->
-                ((upd_sess w5 s6), (ODone (if resumed then Npos XH else N0)))
+                let ok =
+                  if resumed
+                  then N.leb (unresolved_publishes s6.s_ob)
+                         s6.s_rt.rt_maxquota
+                  else true
+                in
+                ((upd_envok (upd_sess w5 s6) ((&&) w5.w_envok ok)), (ODone
+                (if resumed then Npos XH else N0)))
               | CAErr (e, disconnect) ->
                 if disconnect
                 then ((sess_hd (upd_sess w5 s6)), (OFail e))
@@ -6165,18 +6203,29 @@ let run_action a w =
         false, false, true, true, false)), (String ((Ascii (false, true,
         false, false, true, true, true, false)), EmptyString)))))))))))))))))
   | ASetPid p ->
-    let s = w.w_sess in
-    let p' = if N.eqb p N0 then Npos XH else p in
-    upd_log
-      (upd_sess w { s_cfg = s.s_cfg; s_client_id = s.s_client_id; s_reader =
-        s.s_reader; s_ob = s.s_ob; s_pid = p'; s_gen = s.s_gen; s_sp =
-        s.s_sp; s_srv = s.s_srv; s_rt = s.s_rt })
-      (s2t (String ((Ascii (true, false, true, true, true, true, false,
-        false)), (String ((Ascii (false, false, false, false, false, true,
-        false, false)), (String ((Ascii (false, false, false, false, true,
-        true, true, false)), (String ((Ascii (true, false, false, true,
-        false, true, true, false)), (String ((Ascii (false, false, true,
-        false, false, true, true, false)), EmptyString)))))))))))
+    if w.w_conn
+    then upd_log w
+           (s2t (String ((Ascii (true, false, true, true, true, true, false,
+             false)), (String ((Ascii (false, false, false, false, false,
+             true, false, false)), (String ((Ascii (false, false, false,
+             false, true, true, true, false)), (String ((Ascii (true, false,
+             false, true, false, true, true, false)), (String ((Ascii (false,
+             false, true, false, false, true, true, false)),
+             EmptyString)))))))))))
+    else let p16 =
+           N.modulo p (Npos (XO (XO (XO (XO (XO (XO (XO (XO (XO (XO (XO (XO
+             (XO (XO (XO (XO XH)))))))))))))))))
+         in
+         upd_log
+           (upd_sess w
+             (set_pid w.w_sess (if N.eqb p16 N0 then Npos XH else p16)))
+           (s2t (String ((Ascii (true, false, true, true, true, true, false,
+             false)), (String ((Ascii (false, false, false, false, false,
+             true, false, false)), (String ((Ascii (false, false, false,
+             false, true, true, true, false)), (String ((Ascii (true, false,
+             false, true, false, true, true, false)), (String ((Ascii (false,
+             false, true, false, false, true, true, false)),
+             EmptyString)))))))))))
 
 (** val halted : world -> bool **)
 
@@ -6248,7 +6297,8 @@ let step_action w a =
 let init_world c =
   { w_sess = (session_new c.c_cfg); w_conn = false; w_live = false; w_event =
     N0; w_now = N0; w_inq = []; w_last_arrival = N0; w_txbuf = []; w_script =
-    c.c_script; w_broker = N0; w_log = []; w_handles = []; w_waits = N0 }
+    c.c_script; w_broker = N0; w_log = []; w_handles = []; w_waits = N0;
+    w_envok = true }
 
 (** val run_case : case -> world **)
 
